@@ -96,6 +96,9 @@ func (e routeEngine) Corpus() []Case {
 			// params: prefix/suffix in a segment, optional tails, global vars, spaces around name/regex
 			{Ops: []string{"new 0 0 -", regOp(1, nil, "/u-{id}.html", false), regOp(2, nil, "/n/{cat}/{id: \\d+ }/detail", false), regOp(3, nil, "/o/{a}[/{b}[/{c}]]", false), regOp(4, nil, "/g/{num}/{all}", false),
 				q(g, "/u-12.html"), q(g, "/u-.html"), q(g, "/n/x/12/detail"), q(g, "/o/1"), q(g, "/o/1/2"), q(g, "/o/1/2/3"), q(g, "/g/12/a/b/c"), q(g, "/g/012/a"), q(g, "/g/1/")}},
+			// a path registered under all nine methods, asked with a method rux does not know: 405 with nine allowed methods
+			{Ops: []string{"new 4 0 -", regOp(1, nineMethods, "/all/{id}", false), regOp(2, nineMethods, "/fixed", false), regOp(3, []string{g}, "/one", false),
+				q("PURGE", "/fixed"), q("PURGE", "/all/3"), sv("PURGE", "/all/3"), sv("", "/fixed"), q("get ", "/all/x"), q(g, "/fixed"), q("PURGE", "/one"), sv("PURGE", "/none")}, Tag: "corpus-all-methods"},
 			// F3: white-space only paths; request method strings of all kinds
 			{Ops: []string{"new 4 0 -", regOp(1, nil, "/", false), q(g, "  "), q(g, ""), q("", "/"), q("get", "/"), q("GE", "/"), sv(" ", "\t")}},
 		}, raCorpus("route")...)
@@ -339,6 +342,9 @@ func genPattern(r *Rand, id int, shared []string) genRoute {
 			seen[m] = true
 			gr.methods = append(gr.methods, m)
 		}
+	}
+	if r.Chance(1, 25) { // like Any(): every method rux knows
+		gr.methods = append([]string{}, nineMethods...)
 	}
 	return gr
 }
